@@ -230,7 +230,10 @@ def monC02 (h : Hist) : Option String :=
           some s!"exchange {ri.n}: request max-age exceeded but the stored response was returned without contacting the origin (request [{showHdrs ri.req.header}], age={Spec.currentAge parse s now})"
         else
           -- fields named by a qualified no-cache are not replayed without validation
-          match (Spec.noCacheFields Spec.rfc s.header).find? (fun f => Header.has x.res.hdr (canonicalHeaderKey f)) with
+          -- (the fields the cache sets itself on what it serves — Age, its status fields — are the cache's own values there,
+          -- not the origin's replayed: C11 decides what they must say)
+          match (Spec.noCacheFields Spec.rfc s.header).find? (fun f =>
+              !([sAge, sStatusHeader, sFromCache].contains (canonicalHeaderKey f)) && Header.has x.res.hdr (canonicalHeaderKey f)) with
           | some f => some s!"exchange {ri.n}: field {shw f} named by a qualified no-cache was replayed without validation"
           | none => none
       else if (strict || soft) && x.res.kind == "resp" && !servedStored && !isSynth504 x then
